@@ -337,6 +337,11 @@ func cmdCheck(args []string) int {
 		rewriteLock(*prop, reports)
 	}
 	var notes []string
+	// thorough tier: the seeded property-breaking changes kept under /verif/seeded must still be detected
+	// (regression guard of the machinery; a miss is reported in the evidence, never as a violation of /repo)
+	if *tier == "thorough" && os.Getenv("GOVC_NO_SELFTEST") == "" && *repo == "/repo" {
+		notes = append(notes, runSeededSelftest(*prop)...)
+	}
 	// bounded stand-ins (labelled bounded, never counted as proved)
 	standinInfo = nil
 	for _, sname := range propertyStandins[*prop] {
@@ -718,4 +723,37 @@ func runStandin(repo, name, tier string) (bool, string, string) {
 		summary = name + " FAILED: " + firstLines(o, 6)
 	}
 	return ok, summary, firstLines(o, 40)
+}
+
+
+// runSeededSelftest applies each seeded change of the property to a scratch copy of /repo (outside /repo
+// and /verif, removed afterwards) and reports whether this property's check raises a violation on it.
+func runSeededSelftest(prop string) []string {
+	dirs, _ := filepath.Glob(filepath.Join(lockDir(), "seeded", prop+"-*"))
+	sort.Strings(dirs)
+	var out []string
+	for _, d := range dirs {
+		patch := filepath.Join(d, "patch.diff")
+		if _, err := os.Stat(patch); err != nil {
+			continue
+		}
+		cmd := exec.Command("bash", filepath.Join(lockDir(), "tools", "mutcheck.sh"), patch, prop)
+		cmd.Env = append(os.Environ(), "GOVC_NO_SELFTEST=1", "VERIF_TIER=quick")
+		o, _ := cmd.CombinedOutput()
+		res := "MISSED"
+		if strings.Contains(string(o), "VIOLATION property="+prop) {
+			res = "detected"
+		} else if strings.Contains(string(o), "PATCH-FAILED") {
+			res = "patch does not apply to the current tree"
+		}
+		first := ""
+		for _, l := range strings.Split(string(o), "\n") {
+			if strings.HasPrefix(l, "VIOLATION") {
+				first = " (" + strings.TrimSpace(strings.SplitN(l, "obligation=", 2)[len(strings.SplitN(l, "obligation=", 2))-1]) + ")"
+				break
+			}
+		}
+		out = append(out, "self-test on seeded change "+filepath.Base(d)+": "+res+first)
+	}
+	return out
 }
